@@ -1,7 +1,361 @@
--- C19: public coin contract (theorems; in progress)
+-- C19: public coin contract — property theorems about Winter/Model/Coin.lean
+-- (helper lemmas: WinterProofs/Lemmas/C19.lean).  The hasher is a parameter `H : HashOps D`; the
+-- model is tied to crypto/src/random/default.rs by the correspondence harness (harness/src/bin/c19.rs:
+-- a toy hasher implemented on both sides, and digest tables recorded from the six real hashers).
 import Winter.Model.Coin
+import WinterProofs.Lemmas.C19
 
 namespace C19
-open Model.Coin
+open Model.Coin C19L
+
+variable {D : Type} (H : HashOps D)
+
+-- =================================================================== 1. determinism
+/-- ★ the outputs (and the final state) are a function of the history: equal seeds and equal
+    operation sequences give equal outputs -/
+theorem run_deterministic (seed₁ seed₂ : List Nat) (ops₁ ops₂ : List (Op D))
+    (hs : seed₁ = seed₂) (ho : ops₁ = ops₂) : run H seed₁ ops₁ = run H seed₂ ops₂ := by
+  subst hs; subst ho; rfl
+
+/-- the state after a history, folding the operations (the state keeps evolving after a panic that
+    the caller catches) -/
+def stateAfter (c : Coin D) (ops : List (Op D)) : Coin D :=
+  ops.foldl (fun c op => (step H c op).2) c
+
+/-- outputs of a history do not depend on what comes later: a history without panic followed by
+    more operations first produces exactly its own outputs -/
+theorem runFrom_append (c : Coin D) (ops₁ ops₂ : List (Op D))
+    (hnp : ∀ o ∈ (runFrom H c ops₁).1, isPanic o = false) :
+    (runFrom H c (ops₁ ++ ops₂)).1 = (runFrom H c ops₁).1 ++ (runFrom H (runFrom H c ops₁).2 ops₂).1 := by
+  induction ops₁ generalizing c with
+  | nil => simp [runFrom]
+  | cons op ops ih =>
+    simp only [List.cons_append, runFrom]
+    cases hs : step H c op with
+    | mk o c' =>
+      simp only []
+      by_cases hp : isPanic o = true
+      · exfalso
+        have := hnp o (by simp [runFrom, hs, hp])
+        rw [hp] at this; cases this
+      · simp only [hp]
+        have hnp' : ∀ o' ∈ (runFrom H c' ops).1, isPanic o' = false := by
+          intro o' ho'
+          apply hnp o'
+          simp [runFrom, hs, hp, ho']
+        have := ih c' hnp'
+        simp only [Bool.false_eq_true, if_false, List.cons_append, this]
+
+-- =================================================================== 2. sensitivity
+/-- the idealisation under which "any difference changes the outputs" can be a theorem: the three
+    hash parameters are injective (collision freedom) -/
+structure Injective (H : HashOps D) : Prop where
+  hashElements : ∀ a b, H.hashElements a = H.hashElements b → a = b
+  merge : ∀ s d s' d', H.merge s d = H.merge s' d' → s = s' ∧ d = d'
+  mergeWithInt : ∀ s v s' v', H.mergeWithInt s v = H.mergeWithInt s' v' → s = s' ∧ v = v'
+
+/-- non-vacuity: an (inefficient) injective hasher on byte lists -/
+def tagOps : HashOps (List Nat) where
+  hashElements := fun es => 0 :: es
+  merge := fun a b => 1 :: a.length :: (a ++ b)
+  mergeWithInt := fun s v => 2 :: v :: s
+  asBytes := fun d => d.take 32
+
+theorem tagOps_injective : Injective tagOps := by
+  refine ⟨?_, ?_, ?_⟩
+  · intro a b h
+    simpa [tagOps] using h
+  · intro s d s' d' h
+    simp only [tagOps, List.cons.injEq, true_and] at h
+    obtain ⟨hl, hap⟩ := h
+    exact List.append_inj hap hl
+  · intro s v s' v' h
+    simp only [tagOps, List.cons.injEq, true_and] at h
+    exact ⟨h.2, h.1⟩
+
+/-- ★ two states that differ in the seed or in the counter give different next outputs -/
+theorem next_output_differs (inj : Injective H) (c₁ c₂ : Coin D) (v₁ v₂ : D) (c₁' c₂' : Coin D)
+    (hd : c₁.seed ≠ c₂.seed ∨ c₁.counter ≠ c₂.counter)
+    (h₁ : next H c₁ = some (v₁, c₁')) (h₂ : next H c₂ = some (v₂, c₂')) : v₁ ≠ v₂ := by
+  unfold next at h₁ h₂
+  split at h₁
+  · split at h₂
+    · injection h₁ with h₁; injection h₁ with h₁ _
+      injection h₂ with h₂; injection h₂ with h₂ _
+      intro he
+      rw [← h₁, ← h₂] at he
+      obtain ⟨a, b⟩ := inj.mergeWithInt _ _ _ _ he
+      rcases hd with hd | hd
+      · exact hd a
+      · omega
+    · cases h₂
+  · cases h₁
+
+/-- ★ different seed data give different initial seeds -/
+theorem new_seed_sensitive (inj : Injective H) (s₁ s₂ : List Nat) (h : s₁ ≠ s₂) :
+    (new H s₁).seed ≠ (new H s₂).seed := fun e => h (inj.hashElements _ _ e)
+
+/-- ★ different reseed arguments (or different seeds before) give different seeds after -/
+theorem reseed_sensitive (inj : Injective H) (c₁ c₂ : Coin D) (d₁ d₂ : D)
+    (h : c₁.seed ≠ c₂.seed ∨ d₁ ≠ d₂) : (reseed H c₁ d₁).seed ≠ (reseed H c₂ d₂).seed := by
+  intro e
+  obtain ⟨a, b⟩ := inj.merge _ _ _ _ e
+  rcases h with h | h
+  · exact h a
+  · exact h b
+
+/-- the seed after `draw` is the seed before -/
+theorem draw_seed (fd : FieldDesc) (deg : Nat) (c : Coin D) : (draw H fd deg c).2.seed = c.seed := by
+  unfold draw
+  split
+  · rfl
+  · exact (drawLoop_spec H fd deg _ c _ _ rfl).1
+
+/-- the seed after `draw_integers` that passes its assertions is `merge_with_int(seed, nonce)` —
+    the digest whose zeros `check_leading_zeros(nonce)` counts is the one re-absorbed -/
+theorem drawIntegers_seed (n dom nonce : Nat) (c : Coin D) (hp : isPow2 dom = true) (hn : n < dom) :
+    (drawIntegers H n dom nonce c).2.seed = H.mergeWithInt c.seed nonce := by
+  unfold drawIntegers
+  simp only [hp, hn, not_true_eq_false, if_false]
+  cases hi : intLoop H (dom - 1) n MAX_TRIES ⟨H.mergeWithInt c.seed nonce, 0⟩ [] with
+  | none => rfl
+  | some p =>
+    obtain ⟨acc, c2⟩ := p
+    obtain ⟨acc', c', e, _, hs, _⟩ := intLoop_spec H (dom - 1) n MAX_TRIES ⟨H.mergeWithInt c.seed nonce, 0⟩ []
+      (by simp) (by simp [MAX_TRIES, U64])
+    rw [hi] at e; injection e with e; injection e with e1 e2
+    subst e1; subst e2
+    simp only []
+    split <;> exact hs
+
+/-- ★ different nonces (or different seeds before) give different seeds after `draw_integers` -/
+theorem drawIntegers_nonce_sensitive (inj : Injective H) (n dom : Nat) (nonce₁ nonce₂ : Nat) (c₁ c₂ : Coin D)
+    (hp : isPow2 dom = true) (hn : n < dom) (h : c₁.seed ≠ c₂.seed ∨ nonce₁ ≠ nonce₂) :
+    (drawIntegers H n dom nonce₁ c₁).2.seed ≠ (drawIntegers H n dom nonce₂ c₂).2.seed := by
+  rw [drawIntegers_seed H n dom nonce₁ c₁ hp hn, drawIntegers_seed H n dom nonce₂ c₂ hp hn]
+  intro e
+  obtain ⟨a, b⟩ := inj.mergeWithInt _ _ _ _ e
+  rcases h with h | h
+  · exact h a
+  · exact h b
+
+/-- ★ a difference of seeds is never lost: whatever operation is applied to both coins, the seeds
+    still differ (so every later output differs by `next_output_differs`) -/
+theorem seed_difference_preserved (inj : Injective H) (c₁ c₂ : Coin D) (op : Op D)
+    (h : c₁.seed ≠ c₂.seed) : (step H c₁ op).2.seed ≠ (step H c₂ op).2.seed := by
+  cases op with
+  | reseed d => exact reseed_sensitive H inj c₁ c₂ d d (Or.inl h)
+  | draw fd deg => simp only [step]; rw [draw_seed, draw_seed]; exact h
+  | checkLeadingZeros v => exact h
+  | drawIntegers n dom nonce =>
+    simp only [step]
+    by_cases hp : isPow2 dom = true
+    · by_cases hn : n < dom
+      · exact drawIntegers_nonce_sensitive H inj n dom nonce nonce c₁ c₂ hp hn (Or.inl h)
+      · unfold drawIntegers; simp only [hp, hn, not_true_eq_false, not_false_eq_true, if_true, if_false]; exact h
+    · unfold drawIntegers; simp only [hp, not_false_eq_true, if_true]; exact h
+
+theorem seed_difference_preserved_history (inj : Injective H) (ops : List (Op D)) (c₁ c₂ : Coin D)
+    (h : c₁.seed ≠ c₂.seed) : (stateAfter H c₁ ops).seed ≠ (stateAfter H c₂ ops).seed := by
+  induction ops generalizing c₁ c₂ with
+  | nil => exact h
+  | cons op ops ih =>
+    simp only [stateAfter, List.foldl_cons]
+    exact ih _ _ (seed_difference_preserved H inj c₁ c₂ op h)
+
+/-- ★ a draw (successful or exhausted) strictly advances the counter and leaves the seed alone: a
+    history with more earlier draws is in a state with a larger counter, hence (by
+    `next_output_differs`) its next output differs -/
+theorem draw_advances_counter (fd : FieldDesc) (deg : Nat) (c : Coin D) (o : Out) (c' : Coin D)
+    (hfit : fd.bytes * deg ≤ DIGEST_BYTES) (hc : c.counter + MAX_TRIES + 1 < U64)
+    (h : draw H fd deg c = (o, c')) : c'.seed = c.seed ∧ c.counter < c'.counter := by
+  unfold draw at h
+  have : ¬ DIGEST_BYTES < fd.bytes * deg := by omega
+  simp only [this, if_false] at h
+  obtain ⟨h1, h2, h3, h4, h5, h6, h7, h8, h9⟩ := drawLoop_spec H fd deg MAX_TRIES c o c' h
+  refine ⟨h1, ?_⟩
+  cases o with
+  | elem e => exact (h4 e rfl).2
+  | err => have := h5 rfl; simp only [MAX_TRIES] at this; omega
+  | panic s => exfalso; have := h6 s rfl; omega
+  | ints vs => exact absurd rfl (h7 vs)
+  | num n => exact absurd rfl (h8 n)
+  | unit => exact absurd rfl h9
+
+/-- the limit of "any difference in the number of earlier draws changes the subsequent outputs": the
+    counter is forgotten by the next reseed (and by `draw_integers`), by design of the protocol — two
+    coins with equal seeds coincide after reseeding with the same data, however many draws preceded -/
+theorem reseed_forgets_counter (c₁ c₂ : Coin D) (d : D) (h : c₁.seed = c₂.seed) :
+    reseed H c₁ d = reseed H c₂ d := by
+  unfold reseed; rw [h]
+
+/-- ★ counter restarts at every reseed -/
+theorem counter_restarts (c : Coin D) (d : D) (seed : List Nat) :
+    (reseed H c d).counter = 0 ∧ (new H seed).counter = 0 := ⟨rfl, rfl⟩
+
+-- =================================================================== 3. range / validity
+/-- ★ every drawn element is a valid canonical element of the requested degree: exactly `deg`
+    coordinates, each below the modulus -/
+theorem draw_ok_valid (fd : FieldDesc) (deg : Nat) (c : Coin D) (e : List Nat) (c' : Coin D)
+    (h : draw H fd deg c = (.elem e, c')) : e.length = deg ∧ ∀ x ∈ e, x < fd.M := by
+  unfold draw at h
+  split at h
+  · cases h
+  · exact ((drawLoop_spec H fd deg MAX_TRIES c _ c' h).2.2.2.1 e rfl).1
+
+/-- ★ `draw` never panics (the counter, which restarts at every reseed, stays below 2^64 − 1001); an element wider than a digest is refused with an error -/
+theorem draw_never_panics (fd : FieldDesc) (deg : Nat) (c : Coin D) (hc : c.counter + MAX_TRIES + 1 < U64)
+    (s : String) : (draw H fd deg c).1 ≠ .panic s := by
+  unfold draw
+  split
+  · intro h; cases h
+  · cases hd : drawLoop H fd deg MAX_TRIES c with
+    | mk o c' =>
+      obtain ⟨_, _, h3, _, _, h6, _⟩ := drawLoop_spec H fd deg MAX_TRIES c o c' hd
+      intro h
+      have := h6 s h
+      omega
+
+/-- the defect of the original snapshot (repaired by /repo commit d7550df, kept as a witness): the
+    48-byte cubic extension of the 128-bit field could not be sliced out of a 32-byte digest -/
+theorem drawOld_panics :
+    (drawOld tagOps ⟨340282366920938463463374557953744961537, 16⟩ 3 (new tagOps [1])).1
+      = .panic "slice index out of range" := by decide
+
+/-- ★ `draw_integers`: every returned value is below the (power-of-two) domain size, and for a
+    requested count of at least one exactly that many values are returned -/
+theorem drawIntegers_ok (n dom nonce : Nat) (c : Coin D) (vs : List Nat) (c' : Coin D)
+    (h : drawIntegers H n dom nonce c = (.ints vs, c')) :
+    (∀ v ∈ vs, v < dom) ∧ (1 ≤ n → vs.length = n) := by
+  unfold drawIntegers at h
+  by_cases hp : isPow2 dom = true
+  · by_cases hn : n < dom
+    · simp only [hp, hn, not_true_eq_false, if_false] at h
+      obtain ⟨acc', c2, e, h1, h2, h3, h4, h5, h6, h7⟩ :=
+        intLoop_spec H (dom - 1) n MAX_TRIES ⟨H.mergeWithInt c.seed nonce, 0⟩ [] (by simp) (by simp [MAX_TRIES, U64])
+      rw [e] at h
+      simp only [] at h
+      split at h
+      · cases h
+      · rename_i hlen
+        injection h with h _
+        injection h with h
+        subst h
+        have hd := isPow2_pos hp
+        constructor
+        · intro v hv
+          have := h1 v (by simpa using hv)
+          omega
+        · intro h1n
+          simp only [List.length_nil] at h5 h6 hlen
+          rw [List.length_reverse]
+          by_cases hk : n ≤ MAX_TRIES
+          · exact h5 (by omega) (by omega)
+          · have := h6 (by omega); omega
+    · simp only [hp, hn, not_true_eq_false, not_false_eq_true, if_true, if_false] at h; cases h
+  · simp only [hp, not_false_eq_true, if_true] at h; cases h
+
+/-- ★ it cannot fail for counts 1..1000 (in particular 1..255): for a power-of-two domain and
+    `1 ≤ n < domain`, `n ≤ 1000`, exactly `n` values are returned, and the counter afterwards is `n` -/
+theorem drawIntegers_cannot_fail (n dom nonce : Nat) (c : Coin D) (hp : isPow2 dom = true)
+    (hn : n < dom) (h1 : 1 ≤ n) (hk : n ≤ MAX_TRIES) :
+    ∃ vs c', drawIntegers H n dom nonce c = (.ints vs, c') ∧ vs.length = n ∧ c'.counter = n := by
+  unfold drawIntegers
+  simp only [hp, hn, not_true_eq_false, if_false]
+  obtain ⟨acc', c2, e, _, _, h3, _, h5, _, _⟩ :=
+    intLoop_spec H (dom - 1) n MAX_TRIES ⟨H.mergeWithInt c.seed nonce, 0⟩ [] (by simp) (by simp [MAX_TRIES, U64])
+  rw [e]
+  simp only [List.length_nil] at h3 h5
+  have hl : acc'.length = n := h5 (by omega) (by omega)
+  have : ¬ acc'.length < n := by omega
+  simp only [this, if_false]
+  exact ⟨_, _, rfl, by rw [List.length_reverse]; exact hl, by omega⟩
+
+/-- more than 1000 values cannot be drawn: an error after 1000 PRNG calls -/
+theorem drawIntegers_too_many (n dom nonce : Nat) (c : Coin D) (hp : isPow2 dom = true)
+    (hn : n < dom) (hk : MAX_TRIES < n) : (drawIntegers H n dom nonce c).1 = .err := by
+  unfold drawIntegers
+  simp only [hp, hn, not_true_eq_false, if_false]
+  obtain ⟨acc', c2, e, _, _, _, _, _, h6, _⟩ :=
+    intLoop_spec H (dom - 1) n MAX_TRIES ⟨H.mergeWithInt c.seed nonce, 0⟩ [] (by simp) (by simp [MAX_TRIES, U64])
+  rw [e]
+  simp only [List.length_nil] at h6
+  have : acc'.length < n := by have := h6 (by omega); omega
+  simp only [this, if_true]
+
+/-- outside the property's range (counts 1..255) the code departs from "exactly the requested
+    number": for a requested count of zero the loop never sees `len == 0` and 1000 values come back -/
+theorem drawIntegers_zero_quirk (dom nonce : Nat) (c : Coin D) (hp : isPow2 dom = true) :
+    ∃ vs c', drawIntegers H 0 dom nonce c = (.ints vs, c') ∧ vs.length = MAX_TRIES := by
+  unfold drawIntegers
+  have hd := isPow2_pos hp
+  simp only [hp, hd, not_true_eq_false, if_false]
+  obtain ⟨acc', c2, e, _, _, _, _, _, _, h7⟩ :=
+    intLoop_spec H (dom - 1) 0 MAX_TRIES ⟨H.mergeWithInt c.seed nonce, 0⟩ [] (by simp) (by simp [MAX_TRIES, U64])
+  rw [e]
+  simp only [List.length_nil] at h7
+  have hl := h7 (Nat.le_refl _)
+  have : ¬ acc'.length < 0 := by omega
+  simp only [this, if_false]
+  exact ⟨_, _, rfl, by rw [List.length_reverse]; omega⟩
+
+/-- `draw_integers` panics exactly on its two documented assertions -/
+theorem drawIntegers_panics_iff (n dom nonce : Nat) (c : Coin D) :
+    (∃ s, (drawIntegers H n dom nonce c).1 = .panic s) ↔ (isPow2 dom = false ∨ dom ≤ n) := by
+  by_cases hp : isPow2 dom = true
+  · by_cases hn : n < dom
+    · constructor
+      · rintro ⟨s, hs⟩
+        exfalso
+        unfold drawIntegers at hs
+        simp only [hp, hn, not_true_eq_false, if_false] at hs
+        obtain ⟨acc', c2, e, _⟩ :=
+          intLoop_spec H (dom - 1) n MAX_TRIES ⟨H.mergeWithInt c.seed nonce, 0⟩ [] (by simp) (by simp [MAX_TRIES, U64])
+        rw [e] at hs
+        simp only [] at hs
+        split at hs <;> cases hs
+      · rintro (h | h)
+        · rw [hp] at h; cases h
+        · omega
+    · constructor
+      · intro _; right; omega
+      · intro _
+        unfold drawIntegers
+        simp only [hp, hn, not_true_eq_false, not_false_eq_true, if_true, if_false]
+        exact ⟨_, rfl⟩
+  · constructor
+    · intro _; left; simpa using hp
+    · intro _
+      unfold drawIntegers
+      simp only [hp, not_false_eq_true, if_true]
+      exact ⟨_, rfl⟩
+
+-- =================================================================== 4. proof of work
+/-- ★ the proof-of-work measure of a nonce is the number of trailing zero bits of the first eight
+    little-endian bytes of `merge_with_int(seed, nonce)` -/
+theorem checkLeadingZeros_def (c : Coin D) (nonce : Nat) :
+    checkLeadingZeros H c nonce = tz64 (leVal ((H.asBytes (H.mergeWithInt c.seed nonce)).take 8)) := rfl
+
+/-- `tz64` is the 2-adic valuation of a 64-bit word (64 for zero) -/
+theorem tz64_spec (x : Nat) (hx : x < 2 ^ 64) :
+    (x = 0 → tz64 x = 64) ∧ (x ≠ 0 → 2 ^ tz64 x ∣ x ∧ ¬ 2 ^ (tz64 x + 1) ∣ x) ∧ tz64 x ≤ 64 := by
+  refine ⟨?_, ?_, tzAux_le 64 x⟩
+  · rintro rfl; exact tzAux_zero 64
+  · intro h0; exact tzAux_spec 64 x hx h0
+
+/-- ★ the prover's search finds a nonce that passes the verifier's test, and it is the first such
+    nonce of the range it scanned: the predicate searched for is exactly the predicate checked -/
+theorem grind_finds_what_verifier_checks (c : Coin D) (gf fuel n : Nat)
+    (h : grind H c gf fuel 1 = some n) :
+    powOk H c gf n = true ∧ 1 ≤ n ∧ ∀ k, 1 ≤ k → k < n → powOk H c gf k = false := by
+  obtain ⟨a, b, _, d⟩ := grind_spec H c gf fuel 1 n h
+  refine ⟨by simp [powOk]; omega, b, ?_⟩
+  intro k hk1 hk2
+  have := d k hk1 hk2
+  simp [powOk]; omega
+
+/-- ★ the verifier accepts a nonce iff its measure reaches the grinding factor -/
+theorem powOk_iff (c : Coin D) (gf nonce : Nat) : powOk H c gf nonce = true ↔ gf ≤ checkLeadingZeros H c nonce := by
+  simp [powOk]
 
 end C19
